@@ -20,7 +20,9 @@ Verdict(t) ==
          ELSE IF t.schema_uncut # t.schema_cut THEN "SameSchema"
          \* after a cut that documents the loss of divisions the rest is planned for unknown divisions (other alignment, other
          \* quantile sample in a later set_index): the divisions it arrives at need not be those of the uncut plan
-         ELSE IF t.div_known_uncut /\ t.div_known_cut /\ ~t.div_loss_documented /\ t.div_uncut # t.div_cut THEN "SameDivisions"
+         \* nor when the cut collection contains a sort whose divisions are quantiles of its input and the rest filters rows (uncut, the
+         \* filter is pushed below the sort: other sample, other - equally valid - divisions)
+         ELSE IF t.div_known_uncut /\ t.div_known_cut /\ ~t.div_loss_documented /\ ~t.div_sample_may_differ /\ t.div_uncut # t.div_cut THEN "SameDivisions"
          ELSE IF t.div_known_uncut /\ ~t.div_known_cut /\ ~t.div_loss_documented THEN "DivisionsLost"
          ELSE IF t.has_graph /\ GraphVerdict(t.graph, t.outs) # "ok" THEN "Graph:" \o GraphVerdict(t.graph, t.outs)
          ELSE "ok"
